@@ -1,10 +1,184 @@
 (* Properties_C07.v -- C07: vi cursor motions land where the reference motion semantics say.
-   Statements only; every proof is `exact <lemma>`; Print Assumptions under each. *)
+   Statements only; every proof is `exact <lemma>`; Print Assumptions under each.
+   Model: MotDefs.v (mirror of mot.c, the motion part of vi.c, the cursor helpers of ren.c for
+   left-to-right lines).  A program is a list of motions with counts (and the ex command :n used
+   to reach start positions); `run` returns None only when a fuelled loop ran out of fuel. *)
 From Coq Require Import List NArith ZArith.
 From NV Require Import Bytes UcDefs MotDefs MotProps.
 Import ListNotations.
 Local Open Scope Z_scope.
 
+(* motions never change the text *)
 Theorem C07_text_unchanged : forall b rows cs b' s, run_prog b rows cs = Some (b', s) -> b' = b.
 Proof. exact run_prog_text. Qed.
 Print Assumptions C07_text_unchanged.
+
+(* after every motion (+ the vi_wfix clamp), for all texts, counts and motion sequences: the row
+   exists, the offset is on an existing character and not on the terminator of a non-empty line;
+   in the empty buffer the cursor is (0,0) *)
+Theorem C07_cursor_valid : forall b rows cs b' s, buf_wf b -> run_prog b rows cs = Some (b', s) ->
+  cursor_ok b (v_row s) (v_off s).
+Proof. exact cursor_valid. Qed.
+Print Assumptions C07_cursor_valid.
+
+Theorem C07_cursor_on_character : forall b r o, buf_wf b -> cursor_ok b r o ->
+  match getl b r with
+  | Some l => 0 <= o < slen l /\ (b0 (chr_at l o) = 10%N -> l = [[10%N]])
+  | None => b = [] /\ r = 0 /\ o = 0
+  end.
+Proof. exact cursor_ok_char. Qed.
+Print Assumptions C07_cursor_on_character.
+
+(* a motion the model reports as failing leaves row, offset and remembered column in place ... *)
+Theorem C07_fail_in_place : forall b rows a1 a2 k s cl cc, buf_wf b -> cursor_ok b (v_row s) (v_off s) ->
+  vi_motion b rows (v_top s) (v_cl s) (v_cc s) (v_pcol s) (m_has a1 a2) (m_cnt a1 a2) k (v_row s)
+            (ren_noeol (getl b (v_row s)) (v_off s)) = MvFail cl cc ->
+  exists s', do_motion b rows a1 a2 k s = Some s' /\ v_row s' = v_row s /\ v_off s' = v_off s /\ v_col s' = v_col s.
+Proof. exact do_motion_fail. Qed.
+Print Assumptions C07_fail_in_place.
+
+(* ... and failure is reported exactly for: f F t T ; , without target, ; , without an earlier
+   find, % without bracket or match, a percentage above 100 *)
+Theorem C07_fail_cases : forall b rows top cl cc pc has cnt k row off cl' cc',
+  vi_motion b rows top cl cc pc has cnt k row off = MvFail cl' cc' ->
+  match k with
+  | Kf c => lbuf_findchar b c 102%N cnt row off = None
+  | KF c => lbuf_findchar b c 70%N cnt row off = None
+  | Kt c => lbuf_findchar b c 116%N cnt row off = None
+  | KT c => lbuf_findchar b c 84%N cnt row off = None
+  | Ksemi => cl = [] \/ lbuf_findchar b cl cc cnt row off = None
+  | Kcomma => cl = [] \/ lbuf_findchar b cl cc (- cnt) row off = None
+  | Kpct => (has = true /\ 100 < cnt) \/ (has = false /\ lbuf_pair (mfuel b) b row off = Some None)
+  | _ => False
+  end.
+Proof. exact vi_motion_fail_cases. Qed.
+Print Assumptions C07_fail_cases.
+
+(* where any successful motion lands: the motion's row; the offset put before the terminator;
+   line motions on the first non-blank; j k on the character covering the remembered column;
+   the remembered column is recomputed except by | j k *)
+Theorem C07_landing : forall b rows a1 a2 k s r o cl cc pc l, buf_wf b -> 0 <= v_off s ->
+  vi_motion b rows (v_top s) (v_cl s) (v_cc s) (v_pcol s) (m_has a1 a2) (m_cnt a1 a2) k (v_row s)
+            (ren_noeol (getl b (v_row s)) (v_off s)) = MvOk r o cl cc pc ->
+  getl b r = Some l ->
+  exists s', do_motion b rows a1 a2 k s = Some s' /\ v_row s' = r /\
+    v_off s' = ren_noeol (Some l) (if is_jk k then ren_off l (v_col s) else if o <? 0 then count_space l else o) /\
+    v_col s' = (if is_bar k then pc else if is_jk k then v_col s else ren_pos l (v_off s')) /\
+    v_cl s' = cl /\ v_cc s' = cc.
+Proof. exact do_motion_land. Qed.
+Print Assumptions C07_landing.
+
+(* f t (and , after F T): the n-th character with the wanted code point strictly after the cursor
+   on this line, t one short; failure iff there are fewer than n *)
+Theorem C07_find_forward : forall b cs cmd n r o l, getl b r = Some l -> 0 <= o -> n <> 0 ->
+  (if n <? 0 then negb (is_ft cmd) else is_ft cmd) = true ->
+  let rest := skipn (Z.to_nat (o + 1)) l in
+  let m := Z.to_nat (Z.abs n) in
+  match lbuf_findchar b cs cmd n r o with
+  | Some o' => exists k, (k < length rest)%nat /\ code (nth k rest []) = code cs /\ count_m cs (firstn k rest) = (m - 1)%nat /\
+                         o' = o + 1 + Z.of_nat k - (if is_tT cmd then 1 else 0)
+  | None => (count_m cs rest < m)%nat
+  end.
+Proof. exact findchar_forward. Qed.
+Print Assumptions C07_find_forward.
+
+(* F T (and , after f t): the same towards the start of the line *)
+Theorem C07_find_backward : forall b cs cmd n r o l, getl b r = Some l -> 0 <= o -> n <> 0 ->
+  (if n <? 0 then negb (is_ft cmd) else is_ft cmd) = false ->
+  let rest := rev (firstn (Z.to_nat o) l) in
+  let m := Z.to_nat (Z.abs n) in
+  match lbuf_findchar b cs cmd n r o with
+  | Some o' => exists k, (k < length rest)%nat /\ code (nth k rest []) = code cs /\ count_m cs (firstn k rest) = (m - 1)%nat /\
+                         o' = o - 1 - Z.of_nat k + (if is_tT cmd then 1 else 0)
+  | None => (count_m cs rest < m)%nat
+  end.
+Proof. exact findchar_backward. Qed.
+Print Assumptions C07_find_backward.
+
+(* G + - _ H M L (and the row of j k): the clamped target row ... *)
+Theorem C07_line_target : forall b rows top has cnt k row, is_linekey k = true ->
+  vi_motionln b rows top has cnt k row = Some (Some (line_target b rows top has cnt k row)).
+Proof. exact vi_motionln_target. Qed.
+Print Assumptions C07_line_target.
+
+(* ... and the first non-blank of that row (the last character of an all-blank line) *)
+Theorem C07_line_motions : forall b rows a1 a2 k s l, buf_wf b -> 0 <= v_off s ->
+  is_linekey k = true -> is_jk k = false ->
+  let t := line_target b rows (v_top s) (m_has a1 a2) (m_cnt a1 a2) k (v_row s) in
+  getl b t = Some l ->
+  exists s', do_motion b rows a1 a2 k s = Some s' /\ v_row s' = t /\
+             v_off s' = ren_noeol (Some l) (count_space l) /\ v_col s' = ren_pos l (v_off s').
+Proof. exact line_motion_lands. Qed.
+Print Assumptions C07_line_motions.
+
+Theorem C07_first_nonblank : forall l, let k := count_space l in
+  0 <= k <= slen l /\ (forall i, 0 <= i < k -> uc_isspace (chr_at l i) = true) /\
+  (k < slen l -> uc_isspace (chr_at l k) = false).
+Proof. exact count_space_spec. Qed.
+Print Assumptions C07_first_nonblank.
+
+(* j k: clamped row, the character covering the remembered column (ren_off; the terminator is
+   replaced by the last character), and the remembered column is kept (sticky) *)
+Theorem C07_jk : forall b rows a1 a2 k s l, buf_wf b -> 0 <= v_off s -> is_jk k = true ->
+  let t := line_target b rows (v_top s) (m_has a1 a2) (m_cnt a1 a2) k (v_row s) in
+  getl b t = Some l ->
+  exists s', do_motion b rows a1 a2 k s = Some s' /\ v_row s' = t /\
+             v_off s' = ren_noeol (Some l) (ren_off l (v_col s)) /\ v_col s' = v_col s.
+Proof. exact jk_lands. Qed.
+Print Assumptions C07_jk.
+
+(* 0 ^ $ | *)
+Theorem C07_col0_caret_dollar_bar : forall b rows a1 a2 k s l, buf_wf b -> cursor_ok b (v_row s) (v_off s) ->
+  getl b (v_row s) = Some l ->
+  match k with K0 | Kcaret | Kdollar | Kbar => True | _ => False end ->
+  exists s', do_motion b rows a1 a2 k s = Some s' /\ v_row s' = v_row s /\
+    v_off s' = match k with
+               | K0 => 0
+               | Kcaret => ren_noeol (Some l) (count_space l)
+               | Kdollar => Z.max 0 (slen l - 2)
+               | _ => ren_noeol (Some l) (ren_off l (m_cnt a1 a2 - 1))
+               end /\
+    v_col s' = match k with Kbar => m_cnt a1 a2 - 1 | _ => ren_pos l (v_off s') end.
+Proof. exact col_motions_land. Qed.
+Print Assumptions C07_col0_caret_dollar_bar.
+
+(* h l w b e W B E { } % -- PARTIAL.  Full statement wanted: h/l = the character displayed
+   immediately left/right (stop at the line ends); w b e W B E = the count-th word start / word
+   end of the right kind strictly beyond the cursor (empty lines are stops); { } = the next blank
+   line; % = the matching bracket with balanced nesting in between.
+   Proved: these motions are mirrored step for step (MotDefs), every one of them returns a
+   non-negative offset, hence (C07_cursor_valid, C07_landing) a valid cursor on the returned row.
+   Missing: the relation of the mirrored scanners (lbuf_wordbeg/wordend/pair, pos_next/pos_prev) to
+   the declarative descriptions, and that the fuel (2 + characters + lines) always suffices. *)
+Theorem C07_scanners_partial : forall b rows top cl cc pc has cnt k row off r o cl' cc' pc',
+  0 <= off -> vi_motion b rows top cl cc pc has cnt k row off = MvOk r o cl' cc' pc' -> 0 <= o \/ o = -1.
+Proof. exact vi_motion_off. Qed.
+Print Assumptions C07_scanners_partial.
+
+(* the faithful model does NOT put G with a count beyond the last line on the first non-blank
+   (known finding KF-G-OVERRUN; replayed on the real editor by tools/props/c07.py): on "  ab",
+   1G lands on offset 2, 9G on offset 0 of the same line *)
+Theorem C07_G_overrun_refuted :
+  match run g_witness 23 [Mot 9 KG] init_vst, run g_witness 23 [Mot 1 KG] init_vst with
+  | Some s9, Some s1 => v_row s9 = 0 /\ v_row s1 = 0 /\ v_off s1 = 2 /\ v_off s9 = 0
+  | _, _ => False
+  end.
+Proof. exact g_overrun_witness. Qed.
+Print Assumptions C07_G_overrun_refuted.
+
+(* non-vacuity: a well-formed buffer with a tab, a wide and a 2-byte character; a program of
+   motions runs to a valid cursor *)
+Example C07_nonvacuous :
+  let b := buf_of_bytes [9; 97; 32; 228; 184; 173; 195; 169; 10; 10; 40; 120; 41; 10]%N in
+  match run_prog b 23 [Mot 0 Kw; Mot 2 Kl; Mot 0 Kj; Mot 0 Kj; Mot 0 Kpct; Mot 0 Kdollar; Mot 2 Kk; Mot 0 (Kf [195; 169]%N)] with
+  | Some (_, s) => (v_row s, v_off s) = (0, 4)
+  | None => False
+  end.
+Proof. vm_compute. reflexivity. Qed.
+
+Example C07_nonvacuous_wf : buf_wf g_witness /\ cursor_ok g_witness 0 2.
+Proof.
+  split.
+  - repeat constructor. exists [[32]; [32]; [97]; [98]]%N. split; [reflexivity|]. repeat constructor; discriminate.
+  - vm_compute. split; [discriminate|]. left. reflexivity.
+Qed.
